@@ -17,11 +17,11 @@ VM = "internal/machine/vm/machine.go"
 
 MUTATIONS = [
  # ---- C02
- ("C02-write-ignores-write", "C02", LOCK,
+ ("C15-write-ignores-write", "C15", LOCK,
   "\t\t_, ok = chain.writeLocks[account]\n\t\tif ok {\n\t\t\treturn false\n\t\t}\n\t}\n\n\tlogging.FromContext(ctx).Debugf(\"Lock acquired\")",
   "\t}\n\n\tlogging.FromContext(ctx).Debugf(\"Lock acquired\")", "write intents ignore existing write locks"),
  ("C02-sources-read-only", "C02", CMD,
-  "\t\t\tWrite: collectionutils.Filter(involvedSources, worldFilter),\n", "\t\t\tWrite: nil,\n", "sources locked only for reading"),
+  "\t\t\tWrite: collectionutils.Filter(involvedSources, worldFilter),\n", "\t\t\tWrite: collectionutils.Filter(involvedSources[:0], worldFilter),\n", "sources locked only for reading"),
  ("C02-unlock-at-handoff", "C02", CMD,
   "\t\t<-done\n\t\tverifhook.Yield(ctx, \"exec.persisted\")\n", "", "locks released at hand-off, before persistence"),
  ("C02-meta-source-unlocked", "C02", VM,
@@ -115,11 +115,11 @@ MUTATIONS = [
  ("C16-roles-swapped", "C16", CMD,
   "commander.monitor.RevertedTransaction(ctx, transactionToRevert, payload.RevertTransaction)", "commander.monitor.RevertedTransaction(ctx, payload.RevertTransaction, transactionToRevert)", "revert event roles swapped"),
  ("C16-savemeta-not-published", "C16", CMD,
-  "\t\tcommander.monitor.SavedMetadata(ctx, payload.TargetType, fmt.Sprint(payload.TargetID), payload.Metadata)\n", "\t\t_ = payload\n", "SaveMeta no longer publishes"),
+  "\t\tcommander.monitor.SavedMetadata(ctx, payload.TargetType, fmt.Sprint(payload.TargetID), payload.Metadata)\n", "\t\t_ = fmt.Sprint(payload.TargetID)\n", "SaveMeta no longer publishes"),
  ("C16-preview-publishes", "C16", CMD,
   "\tif !parameters.DryRun {\n\t\tcommander.monitor.CommittedTransactions(", "\t{\n\t\tcommander.monitor.CommittedTransactions(", "preview of a transaction publishes an event"),
  ("C16-publish-before-persist", "C16", CTX,
   "\te.commander.Append(chainedLog, func() {\n\t\tclose(done)\n\t})\n", "\te.commander.Append(chainedLog, func() {})\n\tclose(done)\n", "acknowledgement (and therefore the event) before persistence"),
  ("C16-event-from-request-args", "C16", CMD,
-  "commander.monitor.DeletedMetadata(ctx, payload.TargetType, payload.TargetID, payload.Key)", "commander.monitor.DeletedMetadata(ctx, targetType, targetID, key)", "DELETED_METADATA built from the request arguments (wrong after an idempotent replay)"),
+  "commander.monitor.DeletedMetadata(ctx, payload.TargetType, payload.TargetID, payload.Key)", "commander.monitor.DeletedMetadata(ctx, payload.TargetType, targetID, key)", "DELETED_METADATA built from the request arguments (wrong after an idempotent replay)"),
 ]
